@@ -13,6 +13,7 @@ SPEC = {
         "with delay drawn from constants <= 100 ms; (e) poll() is wait_timeout(0) with the error absorbed by "
         "unwrap_or, so it neither blocks nor panics on Err; (f) with a known status no clock/OS call is reachable."
         " Also: the back-off delay is inductively positive (no spin), and an Option not built in the function (e.g. self.exit_status()) may be returned only under dur.is_zero()."
+        " Thorough tier, windows: the Duration -> ms conversion for WaitForSingleObject rounds up (reported D20)."
     ),
     "not_decided": "the latency numbers themselves (\"within a tenth of a second\", \"no later than d plus slack\") — timing; "
                    "Instant + Duration overflow for absurd d.",
